@@ -1272,11 +1272,70 @@ fn interrupt_mismatch(i: &v1::Interrupt, tag: u32, extra: u32) -> Option<String>
         }
         _ => false,
     };
-    if ok {
-        None
-    } else {
-        Some(format!("operation with tag {} (100 = upgrade) reached the chain as {:?}", tag, i))
+    if !ok {
+        return Some(format!("operation with tag {} (100 = upgrade) reached the chain as {:?}", tag, i));
     }
+    // the form in which the interrupt is handed to the scheduler (frozen copy of the layout)
+    let mut want: Vec<u8> = Vec::new();
+    let other_be = {
+        let mut b = 9u64.to_be_bytes().to_vec();
+        b.extend_from_slice(&1u64.to_be_bytes());
+        b
+    };
+    match tag {
+        0 => {
+            want.push(0);
+            want.extend_from_slice(&[7u8; 32]);
+            want.extend_from_slice(&5u64.to_be_bytes());
+        }
+        1 => {
+            want.push(1);
+            want.extend_from_slice(&9u64.to_be_bytes());
+            want.extend_from_slice(&0u64.to_be_bytes());
+            want.extend_from_slice(&3u16.to_be_bytes());
+            want.extend_from_slice(&[1, 2, 3]);
+            want.extend_from_slice(&3u16.to_be_bytes());
+            want.extend_from_slice(b"foo");
+            want.extend_from_slice(&0u64.to_be_bytes());
+        }
+        100 => {
+            want.push(2);
+            want.extend(0..32u8);
+        }
+        2 => {
+            want.push(3);
+            want.extend_from_slice(&[7u8; 32]);
+        }
+        3 => {
+            want.push(4);
+            want.extend_from_slice(&other_be);
+        }
+        4 => want.push(5),
+        5 => {
+            want.push(6);
+            want.extend_from_slice(&[7u8; 32]);
+            want.extend_from_slice(&(10 + extra as u64).to_be_bytes());
+            want.extend_from_slice(&[0xab; 10]);
+            want.extend(std::iter::repeat(0u8).take(extra as usize));
+        }
+        6 => {
+            want.push(7);
+            want.extend_from_slice(&[7u8; 32]);
+        }
+        7 => {
+            want.push(8);
+            want.extend_from_slice(&other_be);
+        }
+        _ => {
+            want.push(9);
+            want.extend_from_slice(&other_be);
+        }
+    }
+    let mut got = Vec::new();
+    if i.to_bytes(&mut got).is_err() || got != want {
+        return Some(format!("the interrupt {:?} is handed to the scheduler as {} instead of {}", i, hx(&got), hx(&want)));
+    }
+    None
 }
 
 fn ctx_for(entry: &str, balance: u64) -> ReceiveContext<Vec<u8>> {
